@@ -990,6 +990,24 @@ func (e *e6Interp) call(x ssa.Value, cc *ssa.CallCommon, in ssa.Instruction) {
 			e.actions = append(e.actions, e6Action{Kind: "mapdelete", Args: args, Instr: in})
 			return
 		case "append", "copy", "min", "max":
+			if (b.Name() == "min" || b.Name() == "max") && e.Rank != nil && len(args) > 0 {
+				// ordered symbols with known ranks: the result is one of the operands
+				best, bestRank, all := args[0], 0, true
+				for i, a := range args {
+					rk, ok := e.rankOf(a)
+					if !ok {
+						all = false
+						break
+					}
+					if i == 0 || (b.Name() == "min" && rk < bestRank) || (b.Name() == "max" && rk > bestRank) {
+						best, bestRank = a, rk
+					}
+				}
+				if all {
+					e.env[x] = best
+					return
+				}
+			}
 			r := &Sym{Op: "call", Name: b.Name(), Args: args, Type: x.Type()}
 			e.env[x] = r
 			if b.Name() == "copy" {
